@@ -356,6 +356,7 @@ func (s *Lexer) getNextToken() (*Token, error) {
 		SOPERATOR
 		SOPERATORSTART
 		SREGEXP
+		SREGEXP_BODY
 		SERROR
 		SEND
 	)
@@ -540,13 +541,16 @@ func (s *Lexer) getNextToken() (*Token, error) {
 				current_state = SERROR
 				break
 			}
+			current_state = SREGEXP_BODY
 			curr_ch := s.read()
-			for curr_ch != '/' {
+			for curr_ch != '/' && curr_ch != 0 {
 				buf.WriteRune(curr_ch)
 				curr_ch = s.read()
 			}
 
-			current_state = SREGEXP
+			if curr_ch == '/' {
+				current_state = SREGEXP
+			}
 			break
 		} else {
 			if current_state != SSTART || unicode.IsDigit(ch) || unicode.IsLetter(ch) || unicode.IsSpace(ch) || ch == '(' || ch == ')' || ch == '{' || ch == '}' || ch == ',' || ch == ':' || ch == '=' || ch == '"' || ch == '\'' || ch == '-' || ch == '+' || ch == '<' || ch == '>' || ch == '*' || ch == '/' || ch == '%' || ch == '@' {
@@ -563,6 +567,7 @@ func (s *Lexer) getNextToken() (*Token, error) {
 
 	unendingString := false
 	unendingBlockComment := false
+	unendingRegexp := false
 
 	switch current_state {
 	case SERROR:
@@ -578,6 +583,9 @@ func (s *Lexer) getNextToken() (*Token, error) {
 		token.TokenType = NUMBER
 	case SREGEXP:
 		token.TokenType = REGEXP
+	case SREGEXP_BODY:
+		unendingRegexp = true
+		token.TokenType = ERROR
 	case SIDENTIFIER:
 		token.TokenType = IDENTIFIER
 		lexeme := strings.ToLower(buf.String())
@@ -761,6 +769,8 @@ func (s *Lexer) getNextToken() (*Token, error) {
 		return nil, NewLexError(token, "Unending block comment")
 	} else if token.TokenType == ERROR && unendingString {
 		return nil, NewLexError(token, "Unending string")
+	} else if token.TokenType == ERROR && unendingRegexp {
+		return nil, NewLexError(token, "Unending regexp")
 	} else if token.TokenType == ERROR {
 		return nil, NewLexError(token, "Unknown token")
 	}
